@@ -92,6 +92,17 @@ def check_module(res, c, T):
         res.violation(f"C02:project-type:{T}", f"project context gives {[type(x).__name__ for x in p2.modules]}", desc)
         return
     compare(res, T, "project", S_proj, build.norm_module(snapshot.snap_module(p2.modules[1], "project"), "after"), desc)
+    # (c1) cloning the module while it belongs to a project (linked to the output) is still "wrap, save, load": a free
+    #      module with the same content and no links of its own
+    try:
+        p.connect(m, p.output)
+        cl_att = m.clone()
+        res.count("clones_of_attached_modules")
+        compare(res, T, "clone-of-attached", S_syn, build.norm_module(snapshot.snap_module(cl_att, "synth"), "after"), desc)
+        if cl_att.parent is not None or list(cl_att.in_links) or list(cl_att.out_links):
+            res.violation(f"C02:clone-of-attached-not-free:{T}", f"clone of an attached {T}: parent {cl_att.parent!r}, in_links {cl_att.in_links}, out_links {cl_att.out_links}", desc)
+    except Exception as e:
+        res.violation(f"C02:clone-raises:{T}:{workload.exc_key(e)}", f"cloning an attached {T} raised {e!r}", desc)
     # (c2) an earlier clone is edited in place (embedded projects, effects, payload lists) and dropped; cloning the
     #      untouched original AGAIN must still give the original (decoded sub-objects must not be shared between loads)
     from . import c06 as _c06
